@@ -77,10 +77,12 @@ const string& GetTimeAsStringMS(string& result, const Tickval *tv, const unsigne
    oss << ':' << setw(2) << ptim->tm_min << ':';
 	if (dplaces)
 	{
-		const double secs((startTime->secs() % 60) + static_cast<double>(startTime->nsecs()) / Tickval::billion);
-		oss.setf(ios::showpoint);
-		oss.setf(ios::fixed);
-		oss << setw(3 + dplaces) << setfill('0') << setprecision(dplaces) << secs;
+		// integer rendering, fraction truncated: rounding a double could carry into a 60th second
+		const unsigned places(dplaces > 9 ? 9 : dplaces);
+		unsigned frac(startTime->nsecs());
+		for (unsigned ii(places); ii < 9; ++ii)
+			frac /= 10;
+		oss << setfill('0') << setw(2) << ptim->tm_sec << '.' << setw(places) << frac;
 	}
 	else
 		oss << setfill('0') << setw(2) << ptim->tm_sec;
